@@ -91,6 +91,38 @@ def accumulator_of(ret: T) -> T:
     return ret
 
 
+TEXT_CHANGING_LEXER_OPTIONS = {"stripall": "drops leading and trailing whitespace of the text",
+                               "tabsize": "expands tabs in the text", "encoding": "re-decodes the text"}
+
+
+def check_lexer_options(repo: Repo, run: Run) -> None:
+    """R6 "colouring never changes the text": the syntax highlighter is handed the rendered line; a pygments lexer built with
+    `stripall=True` (or a tab size) edits the text it highlights, so the coloured line no longer has the characters of the
+    plain one.  (The defaults only normalise the final line end, which every formatter strips again.)"""
+    import ast as _ast
+    n = 0
+    for mod in repo.modules.values():
+        for node in _ast.walk(mod.tree):
+            if not isinstance(node, _ast.Call):
+                continue
+            dn = repo.dotted(mod, node.func) or ""
+            if not (dn.startswith("pygments.lexers") and dn.endswith("Lexer")):
+                continue
+            n += 1
+            bad = []
+            for k in node.keywords:
+                if k.arg in TEXT_CHANGING_LEXER_OPTIONS and not (isinstance(k.value, _ast.Constant) and not k.value.value):
+                    bad.append(k.arg)
+                if k.arg is None:
+                    bad.append("**options")
+            run.ob("R6", mod.name, "lexer", f"{dn.rsplit('.', 1)[1]} options leave the text alone", not bad,
+                   "" if not bad else
+                   f"the lexer is created with {bad}: " + "; ".join(TEXT_CHANGING_LEXER_OPTIONS.get(b, "unknown options") for b in bad)
+                   + " - the coloured line then differs from the plain one in more than the escape sequences",
+                   line=node.lineno, witness="a rendered trace that ends in a blank, e.g. 'Process exit name: ' with an empty name")
+    run.analysed["lexers_constructed"] = n
+
+
 def check(repo: Repo, run: Run) -> None:
     interp = sym.Interp(repo)
     pk = repo.cls("pykdebugparser", "PyKdebugParser")
@@ -412,6 +444,7 @@ def check(repo: Repo, run: Run) -> None:
     run.ob("R4", MOD, "whole package", "every reviewed writer still updates the tables", not missing,
            f"{missing} no longer update the thread/process tables: later lines name a stale process",
            facts={"writers": sorted(found_writers)})
+    check_lexer_options(repo, run)
     if deferred is not None:
         raise deferred
 
